@@ -118,9 +118,18 @@ def body_float32(case):
     rel_uniform = []
     n_bright = 0
     for kind in ("uniform", "special"):
+        # an event outside the stated domain evaluated on the SAME kernel object before the batch (whether it is
+        # refused or answered is not the question): the in-domain events after it conform like on a new object
+        for bad in case.get("outside", [])[: 1 if kind == "uniform" else 2]:
+            try:
+                with quiet():
+                    k.run(bad[0], bad[1], bad[2], 0.0, 0.0, None)
+            except Exception:  # noqa: BLE001
+                labels.add("after_refused_event")
+            labels.add("after_out_of_domain_event")
         for b, a, le in case[kind]:
             e = energy(le)
-            what = f"event beta={math.degrees(b)!r} deg alt={a!r} km E={e!r} x100PeV detector {det!r} km"
+            what = f"event beta={math.degrees(b)!r} deg alt={a!r} km E={e!r} x100PeV detector {det!r} km" + (" [after an out-of-domain event on the same kernel object]" if case.get("outside") else "")
             with cut(what):
                 d, ang = run_prod(k, b, a, e)
             dr, ar = ref.shower(b, a, e, det_alt=det, round32=True)
@@ -221,6 +230,14 @@ def body_steps(case):
         labels.add("long_track")
     return labels
 
+
+# events outside the stated domain (altitude above 20 km incl. above the 65 km ceiling, negative; angles beyond 42 deg,
+# negative; energies 0, negative; non-finite values) - [beta, altitude, energy]
+outside_ev = st.one_of(
+    st.tuples(st.floats(0.0, B42), st.sampled_from([70.0, 66.0, 65.0, 64.99, 25.0, 1000.0, -1.0, -0.001, float("nan"), float("inf")]), st.sampled_from([1.0, 0.3, 100.0])).map(list),
+    st.tuples(st.sampled_from([-0.1, 1.0, 1.5707963267948966, 2.0, float("nan")]), st.floats(0.0, 20.0), st.sampled_from([1.0, 10.0])).map(list),
+    st.tuples(st.floats(0.0, B42), st.floats(0.0, 20.0), st.sampled_from([0.0, -1.0, float("nan"), float("inf"), 1e-30, 1e30])).map(list),
+)
 
 # ---- coverage-guided fuzzing of the C++ step function under ASan + UBSan (libFuzzer, clang 14) ---------------
 
@@ -338,7 +355,7 @@ def extra_evidence():
 SUBCHECKS = [
     SubCheck(
         "float32_vs_model",
-        st.fixed_dictionaries({"det": det_alt, "uniform": st.lists(uniform_ev, min_size=16, max_size=16), "special": st.lists(special_ev, min_size=4, max_size=8)}),
+        st.fixed_dictionaries({"det": det_alt, "uniform": st.lists(uniform_ev, min_size=16, max_size=16), "special": st.lists(special_ev, min_size=4, max_size=8), "outside": st.one_of(st.just([]), st.lists(outside_ev, min_size=1, max_size=2))}),
         body_float32,
         lambda labels: "bright>=8" in labels,
         {"quick": 96, "thorough": 2400},
